@@ -11,31 +11,36 @@ Local Open Scope Qc_scope.
 
 (* two ledger states that agree on every affiliate's shares and cost base, on
    the total and on the total as of the latest row *)
-Definition srel (s1 s2 : pstate) : Prop :=
-  ps_all s1 = ps_all s2 /\ lp s1 = lp s2 /\ forall af, obs s1 af = obs s2 af.
+(* the registered flag of an affiliate is a function of its id (as in the
+   program, where it is read off the "(R)" suffix of the name) *)
+Definition srel (regof : N -> bool) (s1 s2 : pstate) : Prop :=
+  ps_all s1 = ps_all s2 /\ lp s1 = lp s2 /\ (forall af, fst (obs s1 af) = fst (obs s2 af))
+  /\ (forall af, goodaf regof af -> snd (obs s1 af) = snd (obs s2 af)).
 
-Lemma srel_refl s : srel s s.
+Lemma srel_refl regof s : srel regof s s.
 Proof. repeat split. Qed.
 
-Lemma srel_pre s1 s2 af : srel s1 s2 -> next_pre_status s2 af = next_pre_status s1 af.
-Proof. intros (Ha & _ & Ho). rewrite !next_pre_obs, Ha, (Ho af). reflexivity. Qed.
+Lemma srel_pre regof s1 s2 af : srel regof s1 s2 -> goodaf regof af -> next_pre_status s2 af = next_pre_status s1 af.
+Proof. intros (Ha & _ & Ho1 & Ho2) Hg. rewrite !next_pre_obs, Ha, (Ho1 af), (Ho2 af Hg). reflexivity. Qed.
 
-Lemma set_latest_srel s1 s2 af v s1' :
-  srel s1 s2 -> set_latest exact s1 af v = Ok s1' ->
-  exists s2', set_latest exact s2 af v = Ok s2' /\ srel s1' s2'.
+Lemma set_latest_srel regof s1 s2 af v s1' :
+  srel regof s1 s2 -> set_latest exact s1 af v = Ok s1' ->
+  exists s2', set_latest exact s2 af v = Ok s2' /\ srel regof s1' s2'.
 Proof.
-  intros (Ha & Hl & Ho) H.
+  intros (Ha & Hl & Ho1 & Ho2) H.
   assert (E2 : exists s2', set_latest exact s2 af v = Ok s2').
-  { revert H. unfold set_latest. cbn [a_add a_sub exact bind]. rewrite !obs_fst, (Ho af), Ha.
+  { revert H. unfold set_latest. cbn [a_add a_sub exact bind]. rewrite !obs_fst, (Ho1 af), Ha.
     destruct (negb (Bool.eqb _ _)); [discriminate|]. destruct (negb (Qceqb _ _)); [discriminate|].
     intros _. eexists. reflexivity. }
   destruct E2 as [s2' E2]. exists s2'. split; [exact E2|].
   destruct (set_latest_all _ _ _ _ H) as [A1 L1]. destruct (set_latest_all _ _ _ _ E2) as [A2 L2].
-  split; [|split].
+  split; [|split; [|split]].
   - rewrite A1, A2. reflexivity.
   - rewrite L1, L2. reflexivity.
   - intros af2. rewrite (obs_set _ _ _ _ af2 H), (obs_set _ _ _ _ af2 E2).
-    destruct (N.eqb (af_id af2) (af_id af)); [reflexivity | apply Ho].
+    destruct (N.eqb (af_id af2) (af_id af)); [reflexivity | apply Ho1].
+  - intros af2 Hg. rewrite (obs_set _ _ _ _ af2 H), (obs_set _ _ _ _ af2 E2).
+    destruct (N.eqb (af_id af2) (af_id af)); [reflexivity | apply Ho2; exact Hg].
 Qed.
 
 (* ---------------------------------------------------------------- what the scans of a sale settling on [sd] see *)
@@ -52,17 +57,20 @@ Definition BwdLe (sd : Z) (bef2 bef1 : list tx) : Prop :=
 Lemma FwdEq_refl sd aft : FwdEq sd aft aft.
 Proof. intros dflt adj s. reflexivity. Qed.
 
-Lemma dflt_srel s1 s2 : srel s1 s2 -> forall af,
+Lemma dflt_srel regof s1 s2 : srel regof s1 s2 -> forall af,
   match latest_for s2 af with Some s => s_sh s | None => 0 end
   = match latest_for s1 af with Some s => s_sh s | None => 0 end.
-Proof. intros (_ & _ & Ho) af. rewrite !obs_fst, (Ho af). reflexivity. Qed.
+Proof. intros (_ & _ & Ho & _) af. rewrite !obs_fst, (Ho af). reflexivity. Qed.
+
+Section Reg.
+  Variable regof : N -> bool.
 
 Lemma sfl_info_eq bef2 bef1 t2 t1 sold aft2 aft1 st2 st1 :
-  srel st1 st2 -> t_sd t2 = t_sd t1 -> t_af t2 = t_af t1 ->
+  srel regof st1 st2 -> t_sd t2 = t_sd t1 -> t_af t2 = t_af t1 ->
   FwdEq (t_sd t1) aft2 aft1 -> BwdEq (t_sd t1) bef2 bef1 ->
   sfl_info exact bef2 t2 sold aft2 st2 = sfl_info exact bef1 t1 sold aft1 st1.
 Proof.
-  intros HR Hsd Haf HF HB. pose proof (dflt_srel _ _ HR) as Hd. destruct HR as (Ha & Hl & Ho).
+  intros HR Hsd Haf HF HB. pose proof (dflt_srel _ _ _ HR) as Hd. destruct HR as (Ha & Hl & Ho & _).
   unfold sfl_info. rewrite Hsd, Haf. fold (lp st2) (lp st1). rewrite <- Hl, (Hd (t_af t1)).
   cbn [a_sub exact bind].
   destruct (Qcltb (lp st1 - sold) 0); [reflexivity|]. destruct (Qcltb _ 0); [reflexivity|].
@@ -73,12 +81,12 @@ Proof.
 Qed.
 
 Lemma sfl_info_none bef2 bef1 t2 t1 sold aft2 aft1 st2 st1 :
-  srel st1 st2 -> t_sd t2 = t_sd t1 -> t_af t2 = t_af t1 ->
+  srel regof st1 st2 -> t_sd t2 = t_sd t1 -> t_af t2 = t_af t1 ->
   FwdEq (t_sd t1) aft2 aft1 -> BwdLe (t_sd t1) bef2 bef1 ->
   sfl_info exact bef1 t1 sold aft1 st1 = Ok None ->
   sfl_info exact bef2 t2 sold aft2 st2 = Ok None.
 Proof.
-  intros HR Hsd Haf HF HB. pose proof (dflt_srel _ _ HR) as Hd. destruct HR as (Ha & Hl & Ho).
+  intros HR Hsd Haf HF HB. pose proof (dflt_srel _ _ _ HR) as Hd. destruct HR as (Ha & Hl & Ho & _).
   unfold sfl_info. rewrite Hsd, Haf. fold (lp st2) (lp st1). rewrite <- Hl, (Hd (t_af t1)).
   cbn [a_sub exact bind].
   destruct (Qcltb (lp st1 - sold) 0); [discriminate|]. destruct (Qcltb _ 0); [discriminate|].
@@ -94,7 +102,7 @@ Proof.
 Qed.
 
 Lemma delta_sfl_eq bef2 bef1 t sold spec aft2 aft1 st2 st1 loss :
-  srel st1 st2 -> FwdEq (t_sd t) aft2 aft1 -> BwdEq (t_sd t) bef2 bef1 ->
+  srel regof st1 st2 -> FwdEq (t_sd t) aft2 aft1 -> BwdEq (t_sd t) bef2 bef1 ->
   delta_sfl exact bef2 t sold spec aft2 st2 loss = delta_sfl exact bef1 t sold spec aft1 st1 loss.
 Proof.
   intros HR HF HB. unfold delta_sfl.
@@ -104,7 +112,7 @@ Qed.
 (* no superficial loss in the full history (no cell on the row): none in the
    re-run, which sees at most the same acquisitions *)
 Lemma delta_sfl_none bef2 bef1 t sold aft2 aft1 st2 st1 loss :
-  srel st1 st2 -> FwdEq (t_sd t) aft2 aft1 -> BwdLe (t_sd t) bef2 bef1 ->
+  srel regof st1 st2 -> FwdEq (t_sd t) aft2 aft1 -> BwdLe (t_sd t) bef2 bef1 ->
   delta_sfl exact bef1 t sold None aft1 st1 loss = Ok None ->
   delta_sfl exact bef2 t sold None aft2 st2 loss = Ok None.
 Proof.
@@ -142,7 +150,7 @@ Definition force_of (sp : option (Qc * bool)) : bool := match sp with Some (_, f
    (or was given); the re-run accepts it, denies the same amount and
    generates no adjustment rows *)
 Lemma delta_sfl_kept bef2 bef1 t2 t1 sold spec1 aft2 aft1 st2 st1 loss info inj :
-  srel st1 st2 -> t_sd t2 = t_sd t1 -> t_af t2 = t_af t1 ->
+  srel regof st1 st2 -> t_sd t2 = t_sd t1 -> t_af t2 = t_af t1 ->
   FwdEq (t_sd t1) aft2 aft1 -> BwdEq (t_sd t1) bef2 bef1 ->
   loss < 0 -> 0 < sold ->
   delta_sfl exact bef1 t1 sold spec1 aft1 st1 loss = Ok (Some (info, inj)) ->
@@ -182,14 +190,14 @@ Definition loss_row (d : delta) : Prop :=
   is_sell (t_act (d_tx d)) = true /\ exists g, d_gain d = Some g /\ g < 0.
 
 Lemma delta_for_tx_sim bef2 bef1 t aft2 aft1 st2 st1 d inj :
-  srel st1 st2 -> spec_nz t ->
+  srel regof st1 st2 -> goodaf regof (t_af t) -> spec_nz t ->
   delta_for_tx exact bef1 t aft1 st1 = Ok (d, inj) ->
   FwdEq (t_sd t) aft2 aft1 ->
   (d_sfl d <> None -> BwdEq (t_sd t) bef2 bef1) ->
   (d_sfl d = None -> loss_row d -> BwdLe (t_sd t) bef2 bef1) ->
   delta_for_tx exact bef2 t aft2 st2 = Ok (d, inj).
 Proof.
-  intros HR Hnz H HF HBe HBl. unfold delta_for_tx in *. rewrite (srel_pre _ _ _ HR).
+  intros HR Hga Hnz H HF HBe HBl. unfold delta_for_tx in *. rewrite (srel_pre _ _ _ _ HR Hga).
   set (pre := next_pre_status st1 (t_af t)) in *.
   destruct (sanity_check pre (t_af t)) as [[]| |]; cbn [bind] in *; try discriminate.
   destruct (t_act t) as [sh aps com rate crate|sh aps com rate crate spec|aps rate|sh aps|post pre_ io] eqn:Ea;
@@ -213,16 +221,16 @@ Qed.
 
 (* rows that are not sales do not look around *)
 Lemma delta_for_tx_nonsell bef2 bef1 t aft2 aft1 st2 st1 :
-  srel st1 st2 -> is_sell (t_act t) = false ->
+  srel regof st1 st2 -> goodaf regof (t_af t) -> is_sell (t_act t) = false ->
   delta_for_tx exact bef2 t aft2 st2 = delta_for_tx exact bef1 t aft1 st1.
 Proof.
-  intros HR Hs. unfold delta_for_tx. rewrite (srel_pre _ _ _ HR).
+  intros HR Hga Hs. unfold delta_for_tx. rewrite (srel_pre _ _ _ _ HR Hga).
   destruct (t_act t); try reflexivity. discriminate.
 Qed.
 
 (* ---------------------------------------------------------------- the re-emitted sale *)
 Lemma delta_for_tx_kept bef2 bef1 t1 aft2 aft1 st2 st1 d inj info sh aps com rate crate spec1 :
-  srel st1 st2 ->
+  srel regof st1 st2 -> goodaf regof (t_af t1) ->
   t_act t1 = Sell sh aps com rate crate spec1 -> 0 < sh ->
   delta_for_tx exact bef1 t1 aft1 st1 = Ok (d, inj) -> d_sfl d = Some info ->
   FwdEq (t_sd t1) aft2 aft1 -> BwdEq (t_sd t1) bef2 bef1 ->
@@ -232,8 +240,8 @@ Lemma delta_for_tx_kept bef2 bef1 t1 aft2 aft1 st2 st1 d inj info sh aps com rat
              d_gain := d_gain d; d_sfl := Some info' |}, [])
     /\ sf_amount info' = sf_amount info.
 Proof.
-  intros HR Ea Hsh H Hsfl HF HB. unfold delta_for_tx in *.
-  rewrite respec_af. rewrite (srel_pre _ _ _ HR).
+  intros HR Hga Ea Hsh H Hsfl HF HB. unfold delta_for_tx in *.
+  rewrite respec_af. rewrite (srel_pre _ _ _ _ HR Hga).
   set (pre := next_pre_status st1 (t_af t1)) in *.
   destruct (sanity_check pre (t_af t1)) as [[]| |]; cbn [bind] in *; try discriminate.
   set (t2 := respec t1 (Some (sf_amount info, force_of spec1))).
@@ -253,3 +261,4 @@ Proof.
               (respec_sd _ _) (respec_af _ _) HF HB Hg Hsh Em) as (info' & E' & Ham).
   rewrite E'. cbn [bind]. rewrite Ham, Eg'. exists info'. split; [reflexivity | exact Ham].
 Qed.
+End Reg.
